@@ -1,9 +1,12 @@
 package core
 
 import (
+	"fmt"
 	"go/constant"
 	"go/token"
 	"go/types"
+	"sort"
+	"strings"
 
 	"golang.org/x/tools/go/ssa"
 )
@@ -1016,4 +1019,115 @@ func EveryIterationPasses(g ssa.Instruction) bool {
 	}
 	r := reach(starts, avoid, nil)
 	return !r[h]
+}
+
+// ReachKnowingNonNil explores the CFG from the edge pred→start under the assumption that the values in `nonNil` are not nil on
+// this path: branches on `v == nil` / `v != nil` for such values (and for phis that receive such a value along the path taken) follow
+// only the consistent successor. Blocks in `avoid` are not entered. Returns the set of blocks that can be reached.
+func ReachKnowingNonNil(pred, start *ssa.BasicBlock, nonNil map[ssa.Value]bool, avoid map[*ssa.BasicBlock]bool) map[*ssa.BasicBlock]bool {
+	type state struct {
+		b    *ssa.BasicBlock
+		from *ssa.BasicBlock
+		key  string
+	}
+	out := map[*ssa.BasicBlock]bool{}
+	seen := map[string]bool{}
+	var visit func(from, b *ssa.BasicBlock, facts map[ssa.Value]bool)
+	visit = func(from, b *ssa.BasicBlock, facts map[ssa.Value]bool) {
+		if avoid[b] {
+			return
+		}
+		// phis
+		if from != nil {
+			idx := -1
+			for i, p := range b.Preds {
+				if p == from {
+					idx = i
+				}
+			}
+			var add []ssa.Value
+			for _, in := range b.Instrs {
+				phi, ok := in.(*ssa.Phi)
+				if !ok {
+					break
+				}
+				if idx >= 0 && idx < len(phi.Edges) {
+					e := phi.Edges[idx]
+					if facts[e] || certainlyNonNil(e) {
+						add = append(add, phi)
+					} else if facts[phi] {
+						// the phi gets another value on this edge: forget the fact
+						nf := map[ssa.Value]bool{}
+						for k := range facts {
+							if k != ssa.Value(phi) {
+								nf[k] = true
+							}
+						}
+						facts = nf
+					}
+				}
+			}
+			if len(add) > 0 {
+				nf := map[ssa.Value]bool{}
+				for k := range facts {
+					nf[k] = true
+				}
+				for _, a := range add {
+					nf[a] = true
+				}
+				facts = nf
+			}
+		}
+		var ids []string
+		for v := range facts {
+			ids = append(ids, v.Name())
+		}
+		sort.Strings(ids)
+		key := fmt.Sprintf("%d|%s", b.Index, strings.Join(ids, ","))
+		if seen[key] {
+			return
+		}
+		seen[key] = true
+		out[b] = true
+		if len(b.Instrs) > 0 {
+			if ifi, ok := b.Instrs[len(b.Instrs)-1].(*ssa.If); ok {
+				if bo, ok := ifi.Cond.(*ssa.BinOp); ok && (bo.Op == token.EQL || bo.Op == token.NEQ) {
+					var v ssa.Value
+					if IsNilConst(bo.Y) {
+						v = bo.X
+					} else if IsNilConst(bo.X) {
+						v = bo.Y
+					}
+					if v != nil && (facts[v] || facts[ResolveSpill(v)]) {
+						// v != nil is true
+						if bo.Op == token.NEQ {
+							visit(b, b.Succs[0], facts)
+						} else {
+							visit(b, b.Succs[1], facts)
+						}
+						return
+					}
+				}
+			}
+		}
+		for _, s := range b.Succs {
+			visit(b, s, facts)
+		}
+	}
+	visit(pred, start, nonNil)
+	return out
+}
+
+func certainlyNonNil(v ssa.Value) bool {
+	switch x := v.(type) {
+	case *ssa.UnOp:
+		if x.Op == token.MUL {
+			if g, ok := x.X.(*ssa.Global); ok && IsErrorType(g.Type().(*types.Pointer).Elem()) {
+				return true
+			}
+		}
+	case *ssa.MakeInterface:
+		return true
+	}
+	return false
 }
